@@ -880,8 +880,15 @@ def r4(ctx, ci):
                   "parent of pixel p is p//4, found %s" %
                   (norm(pa) if pa is not None else "?"), node=a[0])
         # parent level = child level - 1
-        la = linear(a[1], "d")
-        lr = linear(r[1], "d")
+        lvl = None
+        for lp in walk_no_nested(fi.node):
+            if isinstance(lp, ast.For) and isinstance(lp.target, ast.Name) \
+                    and any(x is a[0] for x in ast.walk(lp)) and \
+                    lp.target.id != sym and lp.target.id in (
+                        names_in(a[1]) | names_in(r[1])):
+                lvl = lp.target.id
+        la = linear(a[1], lvl) if lvl else None
+        lr = linear(r[1], lvl) if lvl else None
         ctx.check("C08-R4", fi, "levels of promotion " + norm(a[0]),
                   la is not None and lr is not None and
                   la[0] == lr[0] == 1 and la[1] == lr[1] - 1,
@@ -898,13 +905,14 @@ def r4(ctx, ci):
                   "the removed children must be exactly {p,p+1,p+2,p+3}; "
                   "found %s" % (norm(rs) if rs is not None else "?"),
                   node=r[0])
-        # guard: p % 4 == 0 and membership of p+1..p+3
-        guards = []
+        # guard: p % 4 == 0 and membership of p+1..p+3 (as syntax trees:
+        # enclosing if-tests, and `if C: continue` earlier in the loop body
+        # contributes not-C)
+        conds = []          # (test, holds?)
         for iff in walk_no_nested(fi.node):
             if isinstance(iff, ast.If) and any(
                     x is a[0] for st in iff.body for x in ast.walk(st)):
-                guards.append(norm(iff.test).replace(" ", ""))
-        # `if C: continue` earlier in the same loop body contributes not-C
+                conds.append((iff.test, True))
         for lp in walk_no_nested(fi.node):
             if isinstance(lp, ast.For) and any(
                     x is a[0] for x in ast.walk(lp)):
@@ -914,14 +922,54 @@ def r4(ctx, ci):
                     if isinstance(st, ast.If) and len(st.body) == 1 and \
                             isinstance(st.body[0], ast.Continue) and \
                             not st.orelse:
-                        t = norm(st.test).replace(" ", "")
-                        neg = {"%s%%4!=0" % sym: "%s%%4==0" % sym,
-                               "not%s%%4==0" % sym: "%s%%4==0" % sym,
-                               "%s%%4" % sym: "%s%%4==0" % sym}.get(t)
-                        guards.append(neg or "not(%s)" % t)
-        gtxt = "&&".join(guards)
-        ok_g = ("%s%%4==0" % sym) in gtxt and all(
-            ("%s+%d" % (sym, k)) in gtxt for k in (1, 2, 3))
+                        conds.append((st.test, False))
+        flat = []
+        for t_, pol in conds:
+            while isinstance(t_, ast.UnaryOp) and isinstance(t_.op, ast.Not):
+                t_, pol = t_.operand, not pol
+            if isinstance(t_, ast.BoolOp) and isinstance(t_.op, ast.And) \
+                    and pol:
+                flat += [(v_, True) for v_ in t_.values]
+            else:
+                flat.append((t_, pol))
+
+        def is_mod4(e):
+            return isinstance(e, ast.BinOp) and (
+                (isinstance(e.op, ast.Mod) and norm(e.right) == "4") or
+                (isinstance(e.op, ast.BitAnd) and norm(e.right) == "3")) \
+                and norm(e.left) == sym
+        first_of_four = False
+        present = set()
+        for t_, pol in flat:
+            if is_mod4(t_) and not pol:          # not (p % 4)
+                first_of_four = True
+            if isinstance(t_, ast.Compare) and len(t_.ops) == 1:
+                l_, r_ = t_.left, t_.comparators[0]
+                if is_mod4(l_) and norm(r_) == "0" and (
+                        (isinstance(t_.ops[0], ast.Eq) and pol) or
+                        (isinstance(t_.ops[0], ast.NotEq) and not pol)):
+                    first_of_four = True
+                if isinstance(t_.ops[0], ast.In) and pol:
+                    lf = linear(l_, sym)
+                    if lf and lf[0] == 1:
+                        present.add(lf[1])
+                if isinstance(t_.ops[0], ast.LtE) and pol:
+                    es = _set_elts(_resolve_local(fi.node, l_))
+                    if es is not None:
+                        for e_ in es:
+                            lf = linear(e_, sym)
+                            if lf and lf[0] == 1:
+                                present.add(lf[1])
+            if isinstance(t_, ast.Call) and pol and isinstance(
+                    t_.func, ast.Attribute) and t_.func.attr == "issubset":
+                es = _set_elts(_resolve_local(fi.node, t_.func.value))
+                for e_ in es or []:
+                    lf = linear(e_, sym)
+                    if lf and lf[0] == 1:
+                        present.add(lf[1])
+        gtxt = " && ".join(("" if pol else "not ") + norm(t_, 40)
+                           for t_, pol in flat)
+        ok_g = first_of_four and {1, 2, 3} <= present
         ctx.check("C08-R4", fi, "promotion guard", ok_g,
                   "promotion must be guarded by p%%4==0 and the presence of "
                   "p+1,p+2,p+3; guards found: %s" % gtxt, node=a[0])
@@ -953,8 +1001,13 @@ def r4(ctx, ci):
                           "demoting pixel p must add exactly 4p..4p+3; "
                           "found %s" % (norm(c.args[0]) if c.args else "?"),
                           node=c)
-                ls = linear(o[1], "d")
-                ld = linear(o2[1], "d")
+                lv_ = [l2.target.id for l2 in walk_no_nested(bfi.node)
+                       if isinstance(l2, ast.For) and l2 is not lp
+                       and isinstance(l2.target, ast.Name)
+                       and any(x is lp for x in ast.walk(l2))
+                       and l2.target.id in names_in(o[1])]
+                ls = linear(o[1], lv_[-1]) if lv_ else None
+                ld = linear(o2[1], lv_[-1]) if lv_ else None
                 ctx.check("C08-R4", bfi, "levels of demotion " + norm(c),
                           ls is not None and ld is not None and
                           ld[0] == ls[0] == 1 and ld[1] == ls[1] + 1,
